@@ -9,8 +9,11 @@
    - a Timer is a process: its Initialize event (urgent) schedules the Timeout; when the Timeout is
      processed the callback runs unless the timer was stopped, and a restart() from the callback
      schedules the next Timeout after everything the callback scheduled;
-   - retransmissions re-send THE SAME Packet object: packet.time and packet.current_time of a copy
+   - retransmissions re-send THE SAME Packet object: packet.time (and packet.current_time) of a copy
      still inside the wire are overwritten ([l_pkt] maps a segment id to the fields of its object);
+     the wire's store holds (entry instant, packet) pairs (fix: commit in onl/netdev/wire.py), so each
+     traversal is timed by its own entry instant: [wd_stamps] runs parallel to [wd_items], and
+     [wd_entered] is the local variable `entered` of the wire's process (the entry it last took);
      ACK packets are fresh objects and are carried by value. *)
 From Coq Require Import ZArith QArith Qabs Qround Qminmax List Bool.
 From ONL Require Import Tcp.Sink Tcp.Sender.
@@ -44,7 +47,7 @@ Fixpoint ainsert (e : aentry) (l : list aentry) : list aentry :=
 
 Record ackrec := mkack { a_no : Z; a_pid : Z; a_time : Q; a_ct : Q }.
 
-Record wireD := mkwd { wd_items : list Z; wd_waiting : bool }.
+Record wireD := mkwd { wd_items : list Z; wd_stamps : list Q; wd_entered : Q; wd_waiting : bool }.
 Record wireA := mkwa { wa_items : list ackrec; wa_waiting : bool }.
 
 Record lcfg := mklcfg {
@@ -113,7 +116,8 @@ Definition tx_data (lc : lcfg) (st : lstate) (id : Z) : lstate :=
                   (l_wd st) (l_wa st) (S idx) (l_n2 st) (l_oracle st) (l_slog st)
                   (mkdlog idx id 0 (l_now st) dropped :: l_d1 st) (l_d2 st) in
   if dropped then st1
-  else sched (set_wd st1 (mkwd (wd_items (l_wd st1) ++ [id]) (wd_waiting (l_wd st1)))) (l_now st) 1 (AWirePutCb false).
+  else sched (set_wd st1 (mkwd (wd_items (l_wd st1) ++ [id]) (wd_stamps (l_wd st1) ++ [l_now st]) (wd_entered (l_wd st1))
+                               (wd_waiting (l_wd st1)))) (l_now st) 1 (AWirePutCb false).
 
 (* the outputs of one sender event, in order *)
 Fixpoint do_outs (lc : lcfg) (st : lstate) (o : list out) : lstate :=
@@ -147,8 +151,8 @@ Definition sender_event (lc : lcfg) (st : lstate) (e : event) : lstate + lerr :=
 (* store.get() of the data wire's process *)
 Definition wd_get (st : lstate) : lstate :=
   match wd_items (l_wd st) with
-  | x :: rest => sched (set_wd st (mkwd rest false)) (l_now st) 1 (AWireGetD x)
-  | [] => set_wd st (mkwd [] true)
+  | x :: rest => sched (set_wd st (mkwd rest (tl (wd_stamps (l_wd st))) (hd 0%Q (wd_stamps (l_wd st))) false)) (l_now st) 1 (AWireGetD x)
+  | [] => set_wd st (mkwd [] (wd_stamps (l_wd st)) (wd_entered (l_wd st)) true)
   end.
 Definition wa_get (st : lstate) : lstate :=
   match wa_items (l_wa st) with
@@ -206,8 +210,9 @@ Definition handle (lc : lcfg) (st : lstate) (e : aev) : lstate + lerr :=
   | AWireGetD id =>
       match pkt_get id (l_pkt st) with
       | None => inr (LNoPacket id)
-      | Some (_, ct) =>
-          let queued := (l_now st - ct)%Q in
+      | Some _ =>
+          (* entered, packet = yield self.store.get(): queued_time = now - entered *)
+          let queued := (l_now st - wd_entered (l_wd st))%Q in
           if Qltb queued d then inl (sched st (l_now st + (d - queued))%Q 1 (AWireOutD id))
           else bind (deliver_data lc st id) (fun st' => inl (wd_get st'))
       end
@@ -252,7 +257,7 @@ Fixpoint lrun (fuel : nat) (lc : lcfg) (st : lstate) : lres :=
 (* the harness creates wire1, wire2, then the sender: three Initialize events at time 0 *)
 Definition linit (cw ss rtt0 : Q) (oracle : list Q) : lstate :=
   mkls 0 3 [mkae 0 0 0 (AWireInit false); mkae 0 0 1 (AWireInit true); mkae 0 0 2 ASenderWake]
-       (init cw ss rtt0) sink0 [] (mkwd [] false) (mkwa [] false) O O oracle [] [] [].
+       (init cw ss rtt0) sink0 [] (mkwd [] [] 0 false) (mkwa [] false) O O oracle [] [] [].
 
 Definition lfinal (r : lres) : lstate :=
   match r with LQuiescent s | LStopped s | LFuel s | LRaised s _ => s end.
